@@ -65,7 +65,7 @@ func HarnessCmdMix() {
 	root := vRootChain(router)
 	c1 := vChoose("command1", 9)
 	c2 := vChoose("command2", 9)
-	vAssume(c1 <= c2) // unordered pair
+	// (ordered pairs: the delay-bounded scheduler favours the goroutine started first, so both orders are explored)
 	if f := vParam("force1", -1); f >= 0 {
 		vAssume(c1 == f)
 	}
@@ -92,4 +92,49 @@ func HarnessCmdMix() {
 	// both commands have returned and the request has been answered (or is held by a paused service)
 	vBlockUntil(func() bool { return done == 2 && (reqDone || vAtGate > 0) })
 	vCover(true, "mix explored")
+}
+
+// HarnessRestoredCommands: every command issued on a proxy restored from the state file, from each pause / rollout
+// pre-state: no command handler may panic (a panic there terminates the whole process).
+func HarnessRestoredCommands() {
+	vSortMode = 0
+	vSnapshotReal = true
+	vMapOrderFixed(true)
+	router := NewRouter("/state")
+	topts := TargetOptions{HealthCheckConfig: HealthCheckConfig{Path: "/up", Interval: 1000, Timeout: 1000}}
+	svc, _ := vInstallOldService(router, topts)
+	switch vChoose("pause", 3) {
+	case 1:
+		svc.pauseController.Pause(1000)
+	case 2:
+		svc.pauseController.Stop("m0")
+	}
+	if vChoose("has_rollout", 2) == 1 {
+		t, _ := NewTarget("rold:80", topts)
+		t.state = TargetStateHealthy
+		lb := &LoadBalancer{healthy: TargetList{}, all: TargetList{t}}
+		t.stateConsumer = lb
+		lb.updateHealthyTargets()
+		svc.rollout = lb
+		svc.rolloutController = NewRolloutController(50, []string{"x"})
+	}
+	vAssert(router.saveStateSnapshot() == nil, "restored: snapshot")
+	for _, n := range []string{"old:80", "rold:80", "n1:80", "r1:80"} {
+		vProbeScripts[n] = vHealthyScript()
+	}
+	restored := NewRouter("/state")
+	vAssert(restored.RestoreLastSavedState() == nil, "restored: restore")
+	which := vChoose("command", 9)
+	panicked := vCallRecovering(func() { vCommand(restored, which, topts, "1") })
+	vAssert(!panicked, "restored: no command panics on a restored proxy")
+	// and a request afterwards is answered without a panic either
+	root := vRootChain(restored)
+	req := vPlainRequest("/")
+	req.Host = "h"
+	w := vNewRecorder()
+	if restored.services.Get("svc") == nil || restored.services.Get("svc").pauseController.GetState() != PauseStatePaused {
+		p2 := vCallRecovering(func() { root.ServeHTTP(w, req) })
+		vAssert(!p2, "restored: serving after the command does not panic")
+	}
+	vCover(which == 6, "resume on a restored proxy reachable")
 }
